@@ -181,6 +181,10 @@ def _split_top(s):
     return parts
 
 
+class SortMismatch(TypeError):
+    """the code handles a value in a way the sidecar's declared sorts do not allow (contract/code mismatch -> undecided)"""
+
+
 class V:
     """A symbolic value."""
 
@@ -330,7 +334,7 @@ def to_real(v):
 def coerce(v, sort):
     """Coerce value v to `sort` (None -> null / Opt-none, Int -> Real, ...)."""
     if isinstance(v, PyVal):
-        raise TypeError(f"cannot store python-level value {v!r} as {sort}")
+        raise SortMismatch(f"cannot store python-level value {v!r} as {sort}")
     if v.sort == sort:
         return v
     if isinstance(sort, RefSort):
@@ -372,7 +376,7 @@ def coerce(v, sort):
             return V(sort, v.comps)
     if isinstance(sort, TupleSort) and isinstance(v.sort, TupleSort) and len(sort.items) == len(v.sort.items):
         return vtuple([coerce(a, s) for a, s in zip(tuple_items(v), sort.items)])
-    raise TypeError(f"cannot coerce {v.sort} to {sort}")
+    raise SortMismatch(f"cannot coerce {v.sort} to {sort}")
 
 
 def v_ite(c, a, b):
@@ -417,7 +421,7 @@ def v_eq(a, b):
     if isinstance(a.sort, RefSort) and isinstance(b.sort, RefSort):
         return a.z == b.z
     if a.sort != b.sort:
-        raise TypeError(f"== between {a.sort} and {b.sort}")
+        raise SortMismatch(f"== between {a.sort} and {b.sort}")
     if isinstance(a.sort, (SeqSort, MapSort)):
         raise TypeError("== on sequences/maps is not supported; use seq_eq in specs")
     return z3.And(*[x == y for x, y in zip(a.comps, b.comps)]) if a.comps else z3.BoolVal(True)
